@@ -392,6 +392,7 @@ func checkC19(w *World, r *Report) {
 	r.Explanation += " Round 9: (R19.6) no interface value is compared with a boxed numeric constant."
 	r.Explanation += " Round 10: (R19.1) a []byte value is not re-read as text in one sibling only."
 	r.Explanation += " Round 11: (R19.7) filter chains run to the end."
+	r.Explanation += " Round 12: (R19.8) numeric text is parsed in base ten."
 	r.RuleText = "obligation = one string-measuring construct in a sibling implementation / one optional-argument default; non-trivial = all"
 	r.Trusted = []string{"the set of sibling implementations is resolved from the registration tables by the Twig names length/count/first/last/slice/reverse"}
 
